@@ -454,7 +454,8 @@ impl Prop for C20Prop {
         for t in [
             "echo UPPER ARGS ${X} \"Q W\"\n", ":Lab\n", ":lab Echo a\n", "Out = echo a\n", ":L O = C\n", ":l O = C\n", ":l o = C\n",
             "echo a\necho b\n:ok x = set y\nX = set y\n:Late echo z\n", "# Comment\n\n   \nECHO\n", "x = Set\n", "é = set É\n", ":é echo\n",
-            "", "\n", "echo \"abc", "Echo \"abc", "ECHO a\necho \"abc\n", "!include_files\nEcho\n", "!print Hello\n", "!Print x\n", "a=B\n", "A=b\n", "a = B\n",
+            "", "\n", "echo \"abc", "Echo \"abc", "ECHO a\necho \"abc\n", "!include_files\nEcho\n", "!include_files\n:Lab echo\n", "echo a\n!include_files\nOut = set 1\n", "!include_files\n\n# c\nx = Set 1\n",
+            "echo a\n!include_files\necho b\n!include_files\n:l x = ECHO\n", "!include_files\necho ok\n", "!print Hello\n", "!Print x\n", "a=B\n", "A=b\n", "a = B\n",
         ] {
             let skip = t.starts_with("!print");
             if !skip {
